@@ -253,7 +253,19 @@ def emit_table(repo, fq):
                 if isinstance(par, ast.Assign) and isinstance(par.targets[0], ast.Name):
                     lookup_vars.add(par.targets[0].id)
         fmts, declines = [], False
-        for r in [x for x in nodes if isinstance(x, ast.Return)]:
+        # single-exit spelling: `result = None ... result = f'...' ... return result`
+        rets_all = [x for x in nodes if isinstance(x, ast.Return)]
+        result_var = rets_all[-1].value.id if rets_all and isinstance(rets_all[-1].value, ast.Name) and rets_all[-1].value.id not in lookup_vars else None
+        results = list(rets_all)
+        if result_var:
+            results = [x for x in nodes if isinstance(x, ast.Assign) and any(isinstance(t, ast.Name) and t.id == result_var for t in x.targets)
+                       and not (isinstance(x.value, ast.Constant) and x.value.value is None)]
+            for x in nodes:
+                if isinstance(x, ast.If) and isinstance(x.test, ast.Compare) and isinstance(x.test.left, ast.Name) and x.test.left.id in lookup_vars and \
+                        isinstance(x.test.ops[0], ast.IsNot) and isinstance(x.test.comparators[0], ast.Constant) and x.test.comparators[0].value is None and \
+                        any(r_ in results for s_ in x.body for r_ in walk_local(s_)):
+                    declines = True
+        for r in results:
             alts = []
 
             def split(v):
